@@ -191,6 +191,36 @@ Definition load_segment (t : triple) (g : segment) : triple * bool :=
           else (t2, false)
         else (t2, true).
 
+(** A tuple of file states is SAFE when loading it is all-or-nothing: either nothing is deserialised
+    (a file is absent / empty, the hybrid stream is unreadable or ends dirty) or every configured
+    component is deserialised.  The segment writers guarantee this at every crash point by finishing
+    the hybrid_ file last (it is the commit marker): see [safe_files_all_or_nothing] and C10. *)
+Definition safe_files (hv ht hm : bool) (files : fstate * fstate * fstate * fstate) : bool :=
+  let '(fh, fv, ft, fm) := files in
+  let present (f : fstate) (configured : bool) := negb configured || match f with FMissing | FEmpty => false | _ => true end in
+  let readable (f : fstate) := match f with FComplete | FTrailer => true | _ => false end in
+  let clean (f : fstate) := match f with FComplete => true | _ => false end in
+  if negb (present fh true && present fv hv && present ft ht && present fm hm) then true
+  else if negb (readable fh) then true
+  else if negb (clean fh) && (hv || ht || hm) then true
+  else
+    (* from here on the first configured component is read: after that, every later configured
+       component must be read successfully too *)
+    let v_ok := negb hv || (readable fv && (clean fv || negb (ht || hm))) in
+    let t_ok := negb ht || (readable ft && (clean ft || negb hm)) in
+    let m_ok := negb hm || readable fm in
+    (* a failure at the FIRST configured component loads nothing *)
+    let first_fails := if hv then negb (readable fv) else if ht then negb (readable ft) else if hm then negb (readable fm) else false in
+    first_fails || (v_ok && t_ok && m_ok).
+
+(** the writers' discipline: the payload of the hybrid_ file is intact only once every configured
+    component file has been finished *)
+Definition hybrid_last (hv ht hm : bool) (files : fstate * fstate * fstate * fstate) : bool :=
+  let '(fh, fv, ft, fm) := files in
+  let readable (f : fstate) := match f with FComplete | FTrailer => true | _ => false end in
+  let fin (f : fstate) (configured : bool) := negb configured || match f with FComplete => true | _ => false end in
+  negb (readable fh) || (fin fv hv && fin ft ht && fin fm hm).
+
 (** one hybrid search per memtable (newest first), then one per segment in list order *)
 Definition results_of (r : hyres) : option (list (Z * Z)) :=
   match r with
